@@ -164,6 +164,12 @@ def structured_edits(text, limit=4):
         new = f + old[len(f):]
         if new != old and "*/" not in new and "/*" not in new:
             out.append(text[:a] + new + text[b:])
+        if g == 1 and "\n" not in old[-3:] and "\n" not in old[:3]:
+            # stars next to the delimiters: /** ... **/ and /*** ... ***/
+            for kk in (1, 2, 3):
+                starred = "*" * kk + old[kk:len(old) - kk] + "*" * kk
+                if starred != old and len(starred) == len(old) and "*/" not in starred[:-kk] and "/*" not in starred:
+                    out.append(text[:a] + starred + text[b:])
         if g == 3:
             worst = ("';{}[]()=+" * 8)[:len(old)]
             if worst != old:
@@ -229,9 +235,10 @@ def run(tier, seed, replay):
     fails = []
     for k, (name, a, b) in enumerate(pairs):
         ka, kb = diag_key(res[2 * k]), diag_key(res[2 * k + 1])
-        if ka != kb and ka[0] != "no-verdict" and kb[0] != "no-verdict":
+        nva, nvb = bool(ka) and ka[0] == "no-verdict", bool(kb) and kb[0] == "no-verdict"
+        if ka != kb and not (nva and nvb):
             fails.append(((name, a, b), f"{name}: diagnostics change when the text inside a comment / string is "
-                                        f"replaced by code-like text of the same width: {sorted(set(ka) ^ set(kb))[:4]}"))
+                                        f"replaced by code-like text of the same width: {sorted(set(ka) ^ set(kb), key=str)[:4]}"))
     chk.add_bounded("Lexer + Registry.run (whole pipeline), two runs",
                     "replacing the inside of one comment / string literal (outside the 42 header and #include) by "
                     "code-like text of the same width, without delimiters, backslashes, line breaks and without the "
